@@ -582,7 +582,7 @@ def correspondence(ctx, acc, binp, rng_cases, set_cases, ipa_cases, thorough):
                 continue
             k = (len(parts) - 9) // 2
             big = len(d["g"]) > 32
-            jobs = verify_jobs(d, k, None if thorough and not big else (6 if big else 14))
+            jobs = verify_jobs(d, k, None if thorough and not big else (4 if big else 10))
             if not jobs:
                 continue
             e = (expr_range_verify if kind == "range" else expr_set_verify)(d, parts, [(i, ch) for i, ch, _, _ in jobs])
